@@ -394,7 +394,13 @@ def gen_script(rnd, k):
         lines.insert(rnd.randrange(len(lines) + 1), "; a comment ( with | parens")
         tags.add("comment")
     sep = "\n" if g.pct(80) else "  \t\n "
-    return sep.join(lines) + "\n", tags, g, cards
+    text = sep.join(lines) + "\n"
+    if g.pct(6) and not any("\n" in l or "\r" in l for l in lines):
+        # the other line-break conventions (carriage return is white space and ends a comment)
+        nl = g.choice(["\r\n", "\r"])
+        text = text.replace("\n", nl)
+        tags.add("line-breaks:" + ("crlf" if nl == "\r\n" else "cr"))
+    return text, tags, g, cards
 
 
 # ---------------------------------------------------------------- malformed variants
